@@ -152,6 +152,20 @@ pub fn run() {
 			}
 		}
 	}
+	for (i, a) in crate::gen::universe(cx.quick()).into_iter().enumerate() {
+		let bytes = Arc::new(record(&a).doc.assemble());
+		let label = a.describe();
+		for skip in [false, true] {
+			if skip && a.ends == 0 {
+				continue; // skip_frames needs a Game End
+			}
+			let scheds = [Sched::Full, Sched::Chunk(1), Sched::Chunk(7)];
+			let mut p = P { skip, hash: true, comp: (i % 3) as u8, class: "universe", ..Default::default() };
+			set_sched(&mut p, &scheds[(i + skip as usize) % 3]);
+			p.n[0] = (i % 4 == 0 && !skip) as i64;
+			jobs.push((bytes.clone(), label.clone(), p));
+		}
+	}
 	cx.note("cases", json!(jobs.len()));
 	par_each(jobs.into_iter(), |(bytes, label, p), local| {
 		eval_case("hash", o_hash, &bytes, &p, || format!("{} sched={:?}", label, sched_of(&p)), local);
